@@ -10,7 +10,7 @@
 (* (model::Result::next_arg_index / next_char_index).                      *)
 (* "vis": what a script sees, per mode: [[name, OPTARG]...], for the shell *)
 (* level replay (only printed for vectors up to ShellLen).                 *)
-(* The invariant also checks the ungrouping theorem.                       *)
+(* The invariant also checks the ungrouping theorem (vectors <= ShellLen). *)
 (***************************************************************************)
 EXTENDS Getopts, Json
 
@@ -56,7 +56,8 @@ Next == /\ Len(v) < MaxLen - 1
 Spec == Init /\ [][Next]_vars
 
 Emit ==
-  /\ Assert(\A t \in 1..NGTok : Ungrouping(Append(v, t)), <<"ungrouping theorem fails", osi, v>>)
+  /\ Len(v) < ShellLen =>
+       Assert(\A t \in 1..NGTok : Ungrouping(Append(v, t)), <<"ungrouping theorem fails", osi, v>>)
   /\ Len(v) = 0 => PrintT(ToJson([hdr |-> TRUE, tokens |-> GTokens, optstrings |-> OptStrings,
                                   letters |-> GLetters]))
   /\ PrintT(ToJson([os |-> osi, v |-> v, s |-> Code(v),
